@@ -4,7 +4,7 @@ From Coq Require Import String List NArith ZArith Bool.
 From J5V.lib Require Import Outcome.
 From J5V.model Require Import ReflectDesc ReflectSchema Reflect ReflectSpec.
 From J5V.gen Require ReflectGen.
-From J5V.proofs Require Import ReflectProofs ExportProofs ReflectInvProofs ReflectPathProofs ReflectFuelProofs ReflectFlattenProofs.
+From J5V.proofs Require Import ReflectProofs ExportProofs ReflectInvProofs ReflectPathProofs ReflectFuelProofs ReflectFlattenProofs ReflectCodecProofs.
 From J5V.model Require Import Export.
 Import ListNotations.
 
@@ -84,6 +84,19 @@ Theorem C18_client_properties_terminate : forall D fs S,
   forall k r, lookup S k = Some (Linked r) -> exists out, client_props_of S r = Ok out.
 Proof. exact reflect_client_props_terminate. Qed.
 Print Assumptions C18_client_properties_terminate.
+
+(* ---- last clause, first half ("the codec can encode and decode an empty message of every reflected
+   type"): for every descriptor set with distinct split names and distinct field numbers per message,
+   after a successful reflection newPropSet succeeds on the root of every message: ClientProperties
+   returns and the proto path of every client property (through any depth of flattening) resolves in
+   the message descriptor *)
+Theorem C18_prop_sets_build : forall D fs S,
+  wf_keys D -> (forall m, In m (d_msgs D) -> NoDup (map f_num (m_fields m))) ->
+  reflect D fs = Ok S ->
+  forall m r, In m (d_msgs D) -> lookup S (msg_key m) = Some (Linked r) ->
+  exists pfs, new_prop_set D S r m = Ok pfs.
+Proof. exact reflect_prop_sets_build. Qed.
+Print Assumptions C18_prop_sets_build.
 
 (* ---- clause 2 of the property as a theorem, for every well-formed descriptor set whose field
    numbers are distinct per message (wf_paths; protoc guarantees it): after a successful reflection
